@@ -83,6 +83,10 @@ struct caption {
 	int			itv_count;
 
 	int			info_cycle[2];
+
+	/* XDS network call letters as last received, copied to
+	   vbi_network.call when received twice. */
+	signed char		call_rx[40];
 };
 
 /* Public */
